@@ -240,6 +240,11 @@ theorem run_keeps_sources (db : Db) (F : OpFunc) (store : List Obj) (cmds : List
   rw [ht, List.getElem?_append_left (List.getElem?_eq_some_iff.mp h).1]
   exact h
 
+/-- there is no mutator: assigning to `dimension`, `values`, `unit`, `category` or `quantity_type` of a
+FixedArray raises (`AttributeError`) whatever is assigned, and by `step_failed_leaves_store` changes nothing -/
+theorem assign_rejected (db : Db) (F : OpFunc) (store : List Obj) (src : Obj) (a : ReadOnlyAttr) :
+    runOp db F store src (.assign a) = .error .other := rfl
+
 /-! ### 3. ChangingIndex -/
 
 /-- **Python's index normalisation**: `normIndex n i = some j` iff `i` is a valid index of a sequence
@@ -398,6 +403,7 @@ theorem runOp_keeps_dimension (db : Db) (F : OpFunc) (store : List Obj) (src r :
   | indexAsScalar index quantity =>
     simp only [runOp] at h
     split at h <;> cases h
+  | assign a => simp only [runOp] at h; cases h
 
 /-! ### 4. IndexAsScalar -/
 
